@@ -207,20 +207,23 @@ package varlink
 //@   ensures [nn C13] result != nil && fresh(result)
 
 //@ func (*Service).RegisterInterface {C13 C16 | safety: C10}
-//@   requires [wfS] wfS(s) && iface != nil
-//@   modifies s.names, mapof(s.interfaces), mapof(s.descriptions), gidx
+//@   requires [wfS] wfS(s) && iface != nil && !held[s]
+//@   modifies s.names, mapof(s.interfaces), mapof(s.descriptions), gidx, held
+//@   ensures [unlocked C13 C16] !held[s] && (forall r ref :: r != s ==> held[r] == old(held)[r])
 //@   ghostset at call(append)#1 : gidx = upd(gidx, name, len(res0) - 1)
 //@   ensures [wfS C13] wfS(s)
 //@   ensures [dup C13] old(has(s.interfaces, nameOf(iface))) ==> result != nil && tablesUnchanged(s)
 //@   ensures [running C13] old(s.running) ==> result != nil && tablesUnchanged(s)
-//@   ensures [ok C13] !old(has(s.interfaces, nameOf(iface))) && !old(s.running) ==> result == nil &&
+//@   ensures [draining C16] old(s.conncounter) != 0 ==> result != nil && tablesUnchanged(s)
+//@   ensures [ok C13] !old(has(s.interfaces, nameOf(iface))) && !old(s.running) && old(s.conncounter) == 0 ==> result == nil &&
 //@       len(s.names) == old(len(s.names)) + 1 && s.names[len(s.names) - 1] == nameOf(iface) &&
 //@       (forall i int :: 0 <= i && i < old(len(s.names)) ==> s.names[i] == old(s.names)[i]) &&
 //@       s.interfaces[nameOf(iface)] == iface && s.descriptions[nameOf(iface)] == descOf(iface) &&
 //@       (forall k string :: k != nameOf(iface) ==> has(s.interfaces, k) == old(has(s.interfaces, k)) && s.interfaces[k] == old(s.interfaces[k]) && s.descriptions[k] == old(s.descriptions[k]))
 
 //@ func NewService {C13 | safety: C10}
-//@   modifies gidx
+//@   role init
+//@   modifies gidx, held
 //@   ensures [wfS C13] result0 != nil && fresh(result0) && wfS(result0)
 //@   ensures [ident C13] result0.vendor == vendor && result0.product == product && result0.version == version && result0.url == url
 //@   ensures [first C13] result1 == nil && len(result0.names) == 1 && result0.names[0] == "org.varlink.service" && !result0.running
@@ -264,6 +267,7 @@ package varlink
 //@   ensures [fail C19] result1 != nil ==> result0 == nil
 
 //@ func (*Service).parseAddress {C19 | safety: C19}
+//@   role server
 //@   requires [nn] s != nil
 //@   modifies s.protocol, s.address
 //@   ensures [nocolon C19] colon(address) < 0 ==> result != nil && s.protocol == old(s.protocol) && s.address == old(s.address)
@@ -271,6 +275,7 @@ package varlink
 //@   ensures [refuse C19] refusedAddr(address) <==> result != nil
 
 //@ func (*Service).setListener {C19 C20 | safety: C19}
+//@   role server
 //@   requires [nn] s != nil && !held[s] && (s.protocol == "unix" ==> len(s.address) >= 1)
 //@   modifies s.listener, held, gRemoved, gAct, gPidOk, gNfds, gNfdsOk, gNamesSet, gNames, gFd, gFdCalled, gFLErr
 //@   ghostset at call(activationListener)#1 : gRemoved = false
@@ -284,6 +289,7 @@ package varlink
 //@   assert [unlink C19] at call(SetUnlinkOnClose)#1 : arg1 == true && s.protocol == "unix" && s.address[0] != 64
 
 //@ func (*Service).Bind {C14 C19 | safety: C19}
+//@   role server
 //@   requires [nn] s != nil && !held[s]
 //@   modifies s.protocol, s.address, s.listener, held, gRemoved, gAct, gPidOk, gNfds, gNfdsOk, gNamesSet, gNames, gFd, gFdCalled, gFLErr
 //@   ensures [busy C14] old(s.running) ==> result != nil && s.listener == old(s.listener) && s.protocol == old(s.protocol) && s.address == old(s.address)
@@ -390,3 +396,78 @@ package varlink
 //@   ghostset at typeassert#1 : gDlOk = !res1
 //@   ensures [armed C15] result == nil ==> gDlOk
 //@   ensures [calls C15] gSetDl == old(gSetDl) || gSetDl == old(gSetDl) + 1
+
+//@ func (*Service).isRunning {C14 C16 | safety: C10}
+//@   requires [nn] s != nil && !held[s]
+//@   modifies held
+//@   ensures [val C14] result == s.running
+//@   ensures [unlocked C14 C16] !held[s] && (forall r ref :: r != s ==> held[r] == old(held)[r])
+
+//@ pred resetS(s) = s.listener == nil && !s.running && s.protocol == "" && s.address == ""
+
+//@ func (*Service).Listen$1 {C14 C15 C16 | safety: C10}
+//@   role server
+//@   requires [nn] *s != nil && wg != nil && !held[*s]
+//@   modifies (*s).listener, (*s).running, (*s).protocol, (*s).address, held, closed, wgWaited
+//@   ensures [reset C14] resetS(*s) && !held[*s] && (forall r ref :: r != *s ==> held[r] == old(held)[r])
+//@   ensures [released C15] old((*s).listener) != nil ==> closed[old((*s).listener)]
+//@   ensures [waited C14] wgWaited[wg]
+//@   assert [order C14] at call(Wait)#1 : (*s).listener == nil && arg0 == wg
+
+//@ func (*Service).DoListen$1 {C14 C15 C16 | safety: C10}
+//@   role server
+//@   requires [nn] *s != nil && wg != nil && !held[*s]
+//@   modifies (*s).listener, (*s).running, (*s).protocol, (*s).address, held, closed, wgWaited
+//@   ensures [reset C14] resetS(*s) && !held[*s] && (forall r ref :: r != *s ==> held[r] == old(held)[r])
+//@   ensures [released C15] old((*s).listener) != nil ==> closed[old((*s).listener)]
+//@   ensures [waited C14] wgWaited[wg]
+//@   assert [order C14] at call(Wait)#1 : (*s).listener == nil && arg0 == wg
+
+//@ func (*Service).Listen {C14 C15 C16 | safety: C10}
+//@   role server
+//@   requires [nn] s != nil && !held[s] && dispatchersNonNil(s)
+//@   modifies s.protocol, s.address, s.listener, s.running, s.conncounter, held, closed, wgAdds, wgWaited, gDlOk, gSetDl, gAccErr, gAccTimeout, gRunSeen, gCntSeen, gCnt, gAdds, gBound, gRemoved, gAct, gPidOk, gNfds, gNfdsOk, gNamesSet, gNames, gFd, gFdCalled, gFLErr
+//@   ghostset at defer(Listen$1)#1 : gBound = nil
+//@   ghostset at defer(Listen$1)#1 : gAccErr = nil
+//@   ghostset at load(listener)#1 : gBound = res0
+//@   ghostset at call(Accept)#1 : gAccErr = res1
+//@   ghostset at call(Accept)#1 : gCnt = s.conncounter
+//@   ghostset at call(Accept)#1 : gAdds = wgAdds[addr_wg]
+//@   ghostset at call(Timeout)#1 : gAccTimeout = res0
+//@   ghostset at load(conncounter)#1 : gCntSeen = res0
+//@   ghostset at call(isRunning)#2 : gRunSeen = res0
+//@   ensures [reset C14] resetS(s) && !held[s]
+//@   ensures [stop C14] gAccErr != nil && !gAccTimeout && !gRunSeen ==> result == nil
+//@   ghostset at call(isRunning)#1 : gAccErr = nil
+//@   ensures [idle C15] gAccErr != nil && gAccTimeout ==> gCntSeen == 0 && result == boxed(zero(ServiceTimeoutError))
+//@   ensures [notimeout C15] timeout == 0 ==> gSetDl == old(gSetDl)
+//@   ensures [released C15] gBound != nil ==> closed[gBound]
+//@   assert [rearm C15] at call(Accept)#1 : arg0 == l && (timeout != 0 ==> gDlOk)
+//@   assert [account C14] at go#1 : s.conncounter == gCnt + 1 && wgAdds[addr_wg] == gAdds + 1 && arg0 == s && arg2 == conn && arg3 == addr_wg && gAccErr == nil
+//@   loop 1 invariant [iter] !held[s] && (gAccErr == nil || gAccTimeout) && l == gBound && l != nil && s.listener == gBound && (timeout == 0 ==> gSetDl == old(gSetDl))
+//@   loop 1 decreases *
+
+//@ func (*Service).DoListen {C14 C15 C16 | safety: C10}
+//@   role server
+//@   requires [nn] s != nil && !held[s] && dispatchersNonNil(s)
+//@   modifies s.protocol, s.address, s.listener, s.running, s.conncounter, held, closed, wgAdds, wgWaited, gDlOk, gSetDl, gAccErr, gAccTimeout, gRunSeen, gCntSeen, gCnt, gAdds, gBound
+//@   ghostset at defer(DoListen$1)#1 : gBound = nil
+//@   ghostset at defer(DoListen$1)#1 : gAccErr = nil
+//@   ghostset at load(listener)#1 : gBound = res0
+//@   ghostset at call(Accept)#1 : gAccErr = res1
+//@   ghostset at call(Accept)#1 : gCnt = s.conncounter
+//@   ghostset at call(Accept)#1 : gAdds = wgAdds[addr_wg]
+//@   ghostset at call(Timeout)#1 : gAccTimeout = res0
+//@   ghostset at load(conncounter)#1 : gCntSeen = res0
+//@   ghostset at call(isRunning)#2 : gRunSeen = res0
+//@   ensures [reset C14] resetS(s) && !held[s]
+//@   ensures [stop C14] gAccErr != nil && !gAccTimeout && !gRunSeen ==> result == nil
+//@   ghostset at call(isRunning)#1 : gAccErr = nil
+//@   ensures [idle C15] gAccErr != nil && gAccTimeout ==> gCntSeen == 0 && result == boxed(zero(ServiceTimeoutError))
+//@   ensures [notimeout C15] timeout == 0 ==> gSetDl == old(gSetDl)
+//@   ensures [released C15] gBound != nil ==> closed[gBound]
+//@   ensures [nolistener C14] old(s.listener) == nil ==> result != nil
+//@   assert [rearm C15] at call(Accept)#1 : arg0 == l && (timeout != 0 ==> gDlOk)
+//@   assert [account C14] at go#1 : s.conncounter == gCnt + 1 && wgAdds[addr_wg] == gAdds + 1 && arg0 == s && arg2 == conn && arg3 == addr_wg && gAccErr == nil
+//@   loop 1 invariant [iter] !held[s] && (gAccErr == nil || gAccTimeout) && l == gBound && l != nil && s.listener == gBound && (timeout == 0 ==> gSetDl == old(gSetDl))
+//@   loop 1 decreases *
